@@ -607,7 +607,20 @@ class AckMonitor(Monitor):
     def on_step(self, ep, t, cause):
         if not self.check_timeliness:
             return
+        path_ok = True
+        try:
+            path_ok = ep.conn._network_paths[0].is_validated
+        except Exception:
+            pass
         for ob in self.obligations:
+            if not ob["met"] and ob["ep"] == ep.name and not path_ok and t <= ob["deadline"]:
+                # the endpoint moved to a new, not yet validated path before the acknowledgement was due (the peer was
+                # rebound): what it may send there is bounded by the anti-amplification limit, which can be smaller than
+                # one ACK-bearing packet — the same exemption as for packets received on an unvalidated path
+                ob["met"] = True
+                self.exempt += 1
+                self.exempt_path_switched = getattr(self, "exempt_path_switched", 0) + 1
+                continue
             if not ob["met"] and ob["ep"] == ep.name and t > ob["deadline"] + 0.05:
                 if ep.terminated or ep.conn._state.name != "CONNECTED" or ep.conn._close_pending:
                     ob["met"] = True
